@@ -10,7 +10,7 @@ import torch.nn.functional as F
 import z3
 
 from ..par import run_tasks
-from ..report import CONCRETE, INCONCLUSIVE, Report, describe_function
+from ..report import CONCRETE, INCONCLUSIVE, Report, describe_function, lazy
 from ..sym.runner import discharge
 from ..sym.scalar import Ctx, _sreal, approx
 from ..sym.tensor import TF, Session, STensor
@@ -128,7 +128,16 @@ def end_to_end(kind: str, container: bool, constraint: Any, opt: str, fan_in: in
         x = (torch.randint(0, 2, (1, fan_in), generator=gen) * 2 - 1).double()
     depth = 1.0
     if container:
-        seq = uu.DepthSequential(uu.Linear(2, 2, bias=True).double(), m, uu.Linear(2, 2).double())
+        sibs = [uu.Linear(2, 2, bias=True).double(), m, uu.Linear(2, 2).double()]
+        # every constructor form of the depth containers (positional modules, one OrderedDict of named modules, a module list), chosen by the sizes
+        form = (fan_in + fan_out + k) % 3
+        if form == 0:
+            seq = uu.DepthSequential(*sibs)
+        elif form == 1:
+            from collections import OrderedDict
+            seq = uu.DepthSequential(OrderedDict((f"layer{j}", l_) for j, l_ in enumerate(sibs)))
+        else:
+            seq = uu.DepthModuleList(sibs)
         depth = float(len(seq))
     cls = getattr(uo, opt)
     if mode == "alone":
@@ -207,7 +216,7 @@ def run(rep: Report, only: str = "") -> None:
     if only:
         tasks = [t for t in tasks if only in repr(t[1])]
     rep.extend(run_tasks(tasks))
-    rep.functions = [describe_function(f) for f in (U.linear, U.linear_readout, U.conv1d, uo.lr_scale_func_adam, uo.scaled_parameters, uo.Adam.__init__, uo.AdamW.__init__)]
+    rep.functions = [describe_function(f) for f in (lazy(lambda: U.linear), lazy(lambda: U.linear_readout), lazy(lambda: U.conv1d), lazy(lambda: uo.lr_scale_func_adam), lazy(lambda: uo.scaled_parameters), lazy(lambda: uo.Adam.__init__), lazy(lambda: uo.AdamW.__init__))]
     rep.bounds = {"widths": "fan_in, fan_out symbolic in [1,4096], kernel in [1,9], depth None or symbolic in [1,64], eta in [1e-4,1]",
                   "layers": "Linear, LinearReadout, Conv1d (single output position) at default and None constraint, inside/outside DepthSequential; Adam and AdamW",
                   "derivation": "dy_j = c_out * sum_i x_i * (-lr sign(grad_ji)), grad_ji = a_w g_j x_i with a_w > 0 (proved), x_i^2 = 1  =>  |dy_j| = c_out * lr * fan_in*k",
